@@ -58,6 +58,11 @@ fn gen() -> Vec<Case> {
                     family: "missing-before-paren",
                 });
                 for bad in bad_words(*kind) {
+                    if !bad.starts_with('\'') {
+                        // the invalid word right before a closing parenthesis, touching it or not
+                        out.push(Case { input: format!("( {pre}{}{lead_s} {bad})", kw.word), kw: Some(kw.word), word: unquote(bad), family: "invalid-before-paren" });
+                        out.push(Case { input: format!("( {pre}{}{lead_s} {bad} )", kw.word), kw: Some(kw.word), word: unquote(bad), family: "invalid-before-paren" });
+                    }
                     for suf in SUFFIXES {
                         out.push(Case {
                             input: format!("{pre}{}{lead_s} {bad}{suf}", kw.word),
@@ -69,6 +74,11 @@ fn gen() -> Vec<Case> {
                 }
             }
         }
+    }
+    for w in ["foo", "-foo", "-bogus"] {
+        out.push(Case { input: format!("( -true -o {w})"), kw: None, word: w.to_string(), family: "unknown-word" });
+        out.push(Case { input: format!("({w})"), kw: None, word: w.to_string(), family: "unknown-word" });
+        out.push(Case { input: format!("-true\t{w}\n"), kw: None, word: w.to_string(), family: "unknown-word" });
     }
     let bases = ["", "-true", "-true -o", "( -true", "! ", "-name x -a"];
     for w in ["foo", "-foo", "-namex", "-not", "x", "-printx", "--help"] {
